@@ -25,7 +25,32 @@ claimed = {
          "entry sequences are sampled; per file the crash points are enumerated completely",
          "deterministic simulation with fault injection: simulated disk (short/failed writes, crash = byte prefix)"),
 }
-pending = {}
+claimed.update({
+ "C08": ("exploration", "5/C08", "relays of the real frame.Reader/Writer (1..4 hops, with/without dialect) and chains of 1..3 real router nodes (WriteFrameExcept idiom, optional edit + FixFrame with an outgoing key) carrying canonical and non-canonical encodings; per hop: header preserved, bytes identical without a dialect / for canonical payloads, otherwise reference-valid checksum and same decoded message",
+         "frames are sampled; router chains use custom transports only",
+         "deterministic simulation: byte links + whole-node chains under the cooperative scheduler, reference codec as oracle"),
+ "C09": ("exploration", "5/C09", "write histories beyond the 256 wrap-around with rejected writes interleaved through streamwriter.Writer / frame.Writer.WriteMessage, the initialisation matrix, and whole-node runs (1..6 channels, concurrent writers, heartbeats, stream requests, forwarded frames, flow control) with a per-link header/sequence checker over reference-decoded wire logs",
+         "histories and schedules are sampled",
+         "deterministic simulation: byte link histories + whole-node fan-out under the cooperative scheduler"),
+ "C11": ("exploration", "5/C11", "whole-node simulation with 1..6 stable channels + churning peers, 1..4 concurrent writers issuing the six Write* calls (stable, churning, closed, foreign (second real node) and nil targets), flow control; fan-out model over wire logs: exactly once, isolation, per-writer FIFO, whole frames, header provenance",
+         "samples of the schedule space; flow control (<= 40 outstanding items per channel) is part of the scenario",
+         "deterministic simulation: cooperative scheduler over an instrumented build, executable fan-out model"),
+ "C12": ("exploration", "5/C12", "Close issued at a drawn instant of drawn situations over all 7 endpoint kinds (consumer running/stopped/never started, peers not reading, hanging/refused dials, failing serial opens, disconnecting peers, concurrent writers through and after the close) and Initialize failing at a drawn endpoint; oracles: Close returns within max(write, read timeout)+1 s, no live node task, nothing bound/open, custom transport closed once, Events() closed, writes return",
+         "samples of the schedule/fault/close-point space; leak detection relies on the engine knowing every goroutine the instrumented package starts and on the simulated network's bookkeeping",
+         "deterministic simulation with fault injection: close-point sampling under the cooperative scheduler"),
+ "C13": ("exploration", "5/C13", "sick channels (transport Write blocking forever / until a drawn instant / until the write deadline, failing once / permanently from the k-th call) and unencodable items at drawn positions; healthy channels flow-controlled and checked for exactly-once, failing channels for closed-or-delivering by write attempts, stalled channels for the 64+2+writers backlog bound, events from every channel",
+         "samples of the fault/schedule space",
+         "deterministic simulation with fault injection: write faults on simulated transports under the cooperative scheduler"),
+ "C14": ("exploration", "5/C14", "fault plans of 2..5 sessions per endpoint kind (refused / hanging / failed attempts, EOF, RST, injected read error at the k-th read, silence with optional keep-alive at 0.9 idle periods); oracles: cause in the close event, first attempt immediate, >= 1 s between attempts and after the close event, one connection/channel at a time, fresh channel at quiescence, per-call deadlines from the transport log",
+         "samples of the fault-sequence space; the reconnect delay is bounded (>= 1 s, fresh channel within 12 s), not mirrored from the code; custom and broadcast endpoints get no read faults (re-provide storm, see DESIGN.md)",
+         "deterministic simulation with fault injection: read/connect faults on simulated transports, fake clock"),
+ "C15": ("exploration", "5/C15", "the union of the node workloads in a -race build under the same engine; the race detector is happens-before based and the engine's hand-offs are hidden from it, so unsynchronised access pairs are reported although execution is serialised",
+         "samples of the schedule space; dynamic race detection only sees accesses that the workloads perform",
+         "deterministic simulation under the Go race detector (engine invisible to it)"),
+ "C16": ("exploration", "5/C16", "simulated minutes to hours on the fake clock with drawn heartbeat / dialect / stream-request configurations and arrival histories of ArduPilot and other heartbeats from several identities per channel; heartbeat instants exact in runs without stalls; stream-request model per (channel, system, component)",
+         "samples of the configuration/history space; timing oracles are exact only without stall injection",
+         "deterministic simulation on the fake clock with executable heartbeat and stream-request models"),
+})
 na = {
  "C03": "static fact per message definition (pure function of the definition): no schedule, clock, I/O or fault to simulate",
  "C04": "pure functions on byte slices (encode/decode round trip, aliasing): no schedule, clock, I/O or fault to simulate",
@@ -33,9 +58,6 @@ na = {
  "C18": "translator correctness of the XML->Go generator: no nondeterminism a simulator can own",
  "C19": "pure function per enum type and value",
 }
-for p in ["C08","C09","C11","C12","C13","C14","C15","C16"]:
-    if p not in claimed:
-        na[p] = "check under construction in this session (will be claimed)"
 m = {
  "version": 1,
  "setup_cmd": "cd /verif && export GOFLAGS=-mod=mod GOPROXY=off GOSUMDB=off GOTOOLCHAIN=local && mkdir -p bin && go1.26.8 build -o bin/vcheck ./cmd/vcheck && ./bin/vcheck warm",
